@@ -369,11 +369,3 @@ Example dense_sparse_periodic_dup :
   map (map Qred) de = [[1#4; 3#4]].
 Proof. vm_compute. repeat split. Qed.
 
-Print Assumptions dense_sparse_agree.
-Print Assumptions dense_sparse_entry.
-Print Assumptions dense_sparse_matrix.
-Print Assumptions dense_sparse_rows.
-Print Assumptions sparse_row_shape.
-Print Assumptions scatter_skipped_storage.
-Print Assumptions dense_sparse_distinct.
-Print Assumptions dense_sparse_nonperiodic.
